@@ -846,6 +846,10 @@ func hasErrorReturn(ft *ast.FuncType) (bool, error) {
 func funcType(ft *ast.FuncType) (*Function, error) {
 	var err error
 	f := &Function{}
+	if hasTypeParams(ft) {
+		// a generic function cannot be called without instantiating it
+		return nil, errors.New("EGENERIC")
+	}
 	f.IsContext, err = hasContextParam(ft)
 	if err != nil {
 		return nil, err
